@@ -117,6 +117,23 @@ type enc struct {
 	uncontracted map[string]bool
 	retOrd     int
 	usedTrusted map[string]bool
+	writeIdx   map[*ssa.BasicBlock]map[string][]string
+	declSeq    map[string]int
+	seq        int
+	frames     []frameRec
+	allocd     map[string]bool
+	entryLets  map[string]Val
+}
+
+type frameRec struct {
+	line    int
+	head    *ssa.BasicBlock
+	name    string
+	pre     string
+	post    string
+	headSeq int
+	front   string
+	reach   string
 }
 
 func (e *enc) errf(f string, a ...interface{}) {
@@ -134,6 +151,8 @@ func (e *enc) declConst(name string, s Sort) {
 		return
 	}
 	e.declared[name] = true
+	e.seq++
+	e.declSeq[name] = e.seq
 	e.decls = append(e.decls, fmt.Sprintf("(declare-const %s %s)", name, s))
 }
 
@@ -206,6 +225,15 @@ func (e *enc) get(name string) string { return e.getIn(e.state, name) }
 
 func (e *enc) set(name, term string) {
 	s := e.stateSort(name)
+	// note the written location: (store <current> IDX ...) writes index IDX only
+	cur := e.get(name)
+	pre := "(store " + cur + " "
+	if strings.HasPrefix(term, pre) {
+		rest := term[len(pre):]
+		e.noteWrite(name, rest[:skipSexp(rest)])
+	} else {
+		e.noteWrite(name, "")
+	}
 	e.vers[name]++
 	n := fmt.Sprintf("%s!v%d", symSafe(name), e.vers[name])
 	e.declConst(n, s)
@@ -214,12 +242,42 @@ func (e *enc) set(name, term string) {
 }
 
 func (e *enc) havoc(name string) string {
+	e.noteWrite(name, "")
+	return e.havocQuiet(name)
+}
+
+func (e *enc) havocQuiet(name string) string {
 	s := e.stateSort(name)
 	e.vers[name]++
 	n := fmt.Sprintf("%s!h%d", symSafe(name), e.vers[name])
 	e.declConst(n, s)
 	e.state[name] = n
 	return n
+}
+
+// noteWrite records, for every loop enclosing the current block, that state variable `name`
+// was written at first-level index idx ("" = the whole variable).
+func (e *enc) noteWrite(name, idx string) {
+	if e.curBlock == nil || e.loops == nil {
+		return
+	}
+	for h, li := range e.loops {
+		if !li.blocks[e.curBlock] {
+			continue
+		}
+		if e.loopWrites[h] == nil {
+			e.loopWrites[h] = map[string]bool{}
+		}
+		e.loopWrites[h][name] = true
+		if e.writeIdx[h] == nil {
+			e.writeIdx[h] = map[string][]string{}
+		}
+		if idx == "" {
+			e.writeIdx[h][name] = append(e.writeIdx[h][name], "*")
+		} else {
+			e.writeIdx[h][name] = append(e.writeIdx[h][name], idx)
+		}
+	}
 }
 
 func copyState(m map[string]string) map[string]string {
@@ -263,6 +321,7 @@ func (e *enc) globalName(g *ssa.Global) string {
 func (e *enc) allocRef(prefix string) string {
 	e.regState("frontier", "Int")
 	r := e.freshConst(prefix, "Int")
+	e.allocd[r] = true
 	f := e.get("frontier")
 	e.assumeHere(and("(>= "+r+" "+f+")", "(> "+r+" 0)"))
 	e.set("frontier", "(+ "+r+" 1)")
